@@ -24,6 +24,7 @@ type replayFile struct {
 		Entries    []string `json:"entries"`
 		Serializer string   `json:"serializer"`
 		Clause     string   `json:"clause"`
+		Failing    string   `json:"failing"`
 		Cuts       []int    `json:"cuts"`
 		Chunk      int      `json:"chunk"`
 	} `json:"replay"`
@@ -53,7 +54,27 @@ func runReplay(t *testing.T, res *report.Result, path string) {
 	case "C14":
 		h := &c14{res: res, verbose: true}
 		fmt.Printf("replay C14 %s entry %q serializer %s (clause reported: %s)\n", rp.Kind, rp.Entry, rp.Serializer, rp.Clause)
-		if rp.Kind == "value" {
+		if rp.Kind == "after-failed-encode" {
+			s, ok := serByName(rp.Serializer)
+			if !ok {
+				t.Fatalf("unknown serializer %q", rp.Serializer)
+			}
+			for _, f := range cat.FailingEnvelopes() {
+				for _, e := range envs {
+					if f.Name != rp.Failing || e.Name != rp.Entry {
+						continue
+					}
+					ref, _, err, _ := encodeEnv(s, e.New()) // this process has not seen a failing encode yet
+					if err != nil {
+						t.Fatalf("the entry does not encode: %v", err)
+					}
+					fmt.Printf("  clean encoding: %d bytes %s\n  then %d rounds of: encode %s (must fail), encode %s\n", len(ref), hexPrefix(ref), failRounds, f.Name, e.Name)
+					if !h.afterFailure(s, f, e, ref) {
+						fmt.Printf("  the %s serializer does not refuse %s\n", rp.Serializer, f.Name)
+					}
+				}
+			}
+		} else if rp.Kind == "value" {
 			vals := append(cat.Values(), cat.LimitValues()...)
 			for i := range vals {
 				if vals[i].Name == rp.Entry {
